@@ -60,3 +60,27 @@ func VerifC10_AliasPayload(up, idx, L int) {
 	verifAssert(verifBytesEq(out2, snap), "a decoded payload does not change when the buffer it was decoded from is overwritten")
 	verifReach("accepted")
 }
+
+// A decoded DataFragment that the application still holds (a struct copy; the payload with a slice in it) does not
+// change when the same payload variable decodes the next fragment.
+func VerifC10_KeepsEarlier(L1, L2 int) {
+	var p DataFragmentPayload
+	b1 := verifNondetBytes("first", L1)
+	b2 := verifNondetBytes("second", L2)
+	if p.UnmarshalBinary(verifCopy(b1)) != nil {
+		verifReach("first-rejected")
+		return
+	}
+	held := p
+	out1, err := held.MarshalBinary()
+	if err != nil {
+		verifReach("not-encodable")
+		return
+	}
+	snap := verifCopy(out1)
+	_ = p.UnmarshalBinary(verifCopy(b2))
+	out2, err := held.MarshalBinary()
+	verifAssert(err == nil, "the fragment decoded earlier still encodes after the variable decoded the next one")
+	verifAssert(verifBytesEq(out2, snap), "a fragment decoded earlier does not change when the same payload variable decodes the next one")
+	verifReach("done")
+}
